@@ -54,7 +54,11 @@ class OpenLocked:
 
     def __exit__(self, exc_type, exc_value, traceback):
         try:
-            unlockFile(self.fd)
+            # Make sure everything is written before others can get the lock.
+            try:
+                self.fd.flush()
+            finally:
+                unlockFile(self.fd)
         finally:
             self.fd.close()
 
